@@ -211,6 +211,59 @@ def differential(ctx, n_prog, cfgs, salt="gen", features=None):
     return items, stats
 
 
+def part_expr_tie(ctx):
+    """expr_compile_correct + its O-tie: real legacy IR of generated expressions == ExprCompile.compile, syntactically"""
+    from vlib import c01_exprtie as T
+    from vlib import coqrun
+    from vlib.common import COQ
+    rng = ctx.rng("exprtie")
+    want = 150 if ctx.tier == "quick" else 800
+    ok, stats, bad = [], {"none": 0, "rejected": 0, "shape_mismatch": 0}, []
+    tries = 0
+    while len(ok) < want and tries < want * 4:
+        tries += 1
+        s = T.sample(rng, rng.choice([1, 2, 2, 3, 3]))
+        if s is None:
+            stats["none"] += 1
+        elif "rejected" in s:
+            stats["rejected"] += 1
+        elif "error" in s:
+            stats["shape_mismatch"] += 1
+            bad.append(s)
+        else:
+            ok.append(s)
+    for s in bad[:2]:
+        ctx.violation("correspondence-broken", "the real front end emits IR of a shape ExprCompile.compile does not produce",
+                      {"source": s["src"], "error": s["error"], "real_ir": s.get("ir", "")[:1500]})
+    (COQ / "C01" / "GenExprTie.v").write_text(T.render(ok))
+    b = ctx.coq_build(["C01/ExprCompile.v", "C01/ExprCompileProofs.v", "C01/ExprBridge.v", "C01/GenExprTie.v", "C01/PropsExpr.v"])
+    if not b["ok"]:
+        located = None
+        if "PropsExpr" in b.get("file", "") and (COQ / "C01" / "GenExprTie.vo").exists():
+            # locate the sample whose real IR differs from the model's output
+            try:
+                outs = coqrun.eval_cases("From Verif Require Import C01.ExprCompile C01.GenExprTie.\n",
+                                         ["map (fun p => tie_ok (fst p) (snd p)) samples"], "c01tie")
+                flags = [x.strip() for x in outs[0].strip("[] ").split(";")]
+                for s, f in zip(ok, flags):
+                    if f != "true":
+                        located = s
+                        break
+            except Exception as e:
+                ctx.log(f"locating the failing sample failed: {e}")
+        detail = {"theorem": b.get("failed_lemma"), "file": b["file"], "coq_output": b["out"][-1200:]}
+        if located is not None:
+            detail.update({"source": located["src"], "model_term": located["coq_e"], "real_ir_term": located["coq_t"][:2000],
+                           "note": "ExprCompile.compile (model of Expr.parse_*) and the real legacy front end disagree syntactically "
+                                   "on this expression; the VyCore-vs-EVM differential below is the search for a failing input"})
+            ctx.violation("correspondence-broken", "real legacy IR of an expression differs from ExprCompile.compile", detail)
+        else:
+            ctx.violation("theorem-broken", f"{b.get('failed_lemma')} in {b['file']}", detail)
+    ctx.corr["expr_tie"] = {"samples_tied": len(ok) if b["ok"] else 0, "generated": tries, **stats,
+                            "kinds": "int/bool expressions over 2-4 locals, depth 1-3, 9 integer types; -O none legacy IR"}
+    return len(ok)
+
+
 def run(ctx):
     from vlib.c01_replay import replay
     if replay(ctx):
@@ -221,12 +274,13 @@ def run(ctx):
                       {"theorem": b.get("failed_lemma"), "file": b["file"], "coq_output": b["out"][-1500:]})
         if "VyCore" in b["file"] or "VyShow" in b["file"] or "VyWf" in b["file"]:
             return
+    n_tie = part_expr_tie(ctx)
     cfgs = configs(ctx.tier)
     n = 60 if ctx.tier == "quick" else 300
     items, stats = differential(ctx, n, cfgs)
     ctx.corr["generator"] = stats
     ctx.corr["configs"] = [c.name for c in cfgs]
-    ctx.corr["evaluations"] = stats["calls_compared"]
+    ctx.corr["evaluations"] = stats["calls_compared"] + n_tie
     distinct = len({(i, H.calldata(it["prog"].exts[c.fidx], c)) for i, it in enumerate(items) for c in it["calls"]})
     ctx.corr["distinct_nontrivial"] = distinct * len(cfgs)
     ctx.corr["rule"] = ("evaluations = external calls executed on the EVM and compared with VyCore (status, return data, "
